@@ -266,7 +266,9 @@ def run(ck, F, tier):
     # ---- I2 puncturer -------------------------------------------------------------------
     def slices_of(fn, names):
         b = F.body(fn)
-        tr = Tracer(F, r"ndarray::.*::(slice|slice_mut|assign_to|uninit)|core::slice::<impl \[T\]>::copy_from_slice|std::vec::from_elem", mode="int")
+        # private helpers of the puncturer (e.g. one returning the iterator over the kept block positions) are expanded
+        tr = Tracer(F, r"ndarray::.*::(slice|slice_mut|assign_to|uninit)|core::slice::<impl \[T\]>::copy_from_slice|std::vec::from_elem", mode="int",
+                    inline=lambda p: F.private_helper(p, PU))
         env = {}
         for p, nm in zip(b.params, names):
             tr.bind(p, var(nm), env)
@@ -310,13 +312,12 @@ def run(ck, F, tier):
             kk = None
             for cand in srcs[0].env.values() if srcs[0].env else []:
                 pass
-            s0 = sr[0]
+            # the element of the enumerated sequence (the kept pattern position k), not the running index j
             kpoly = None
-            # sr = (k*BS, (k+1)*BS): recover k
-            if isinstance(s0, Poly):
-                for a in s0.atoms():
-                    if sr == (Poly.atom(a) * BS, (Poly.atom(a) + num(1)) * BS) and (atom_fn(a) or "").startswith("elem"):
-                        kpoly = Poly.atom(a)      # the filter_map payload (kept pattern position), not the running index
+            if len(lp[0]) > 3:
+                kv = tr.elem_value(lp[0][2], lp[0][3])
+                if isinstance(kv, Poly) and sr == (kv * BS, (kv + num(1)) * BS) and kv != j:
+                    kpoly = kv
             dst_ok = dr == (j * BS, (j + num(1)) * BS)
             size_ok = outs[0].args[0] == BS * NT
             src_is_cw = srcs[0].args[0] == var("codeword")
@@ -327,31 +328,30 @@ def run(ck, F, tier):
         if not ok:
             why = "puncture slices %r -> %r, out size %r" % (sr, dr, outs[0].args[0])
     ck.inst("I2", "puncture:block-map", ok, srcs[0].site if srcs else b.span, why)
-    # the (j,k) enumeration idiom: pattern.iter().enumerate().filter_map(|(k,&b)| if b {Some(k)} else {None}).enumerate()
-    def kept_enum_ok(fn):
-        b = F.body(fn)
-        fors = [n for n in walk(b.value) if n.get("k") == "for"]
-        if len(fors) != 1:
-            return False, "expected one loop"
-        it = strip(fors[0]["iter"])
-        chain = []
-        cur = it
-        while cur.get("k") == "mcall":
-            chain.append(cur["m"])
-            last = cur
-            cur = strip(cur["recv"])
-        base = access_path(cur)
-        shape_ok = chain == ["enumerate", "filter_map", "enumerate", "iter"] and base is not None and base[-1] == "pattern"
-        if not shape_ok:
-            return False, "iterator chain %s over %s" % (chain, base)
-        fm = strip(it["recv"])
-        clo = fm["args"][0]
-        ev = SymEval(F, mode="int")
-        v = ev.apply(("closure", clo, {}), [("tuple", [var("k"), ("bool", True)])])
-        v2 = ev.apply(("closure", clo, {}), [("tuple", [var("k"), ("bool", False)])])
-        sel_ok = v == ("ctor", "Some", [var("k")]) and v2 == ("variant", "None")
-        return sel_ok, "kept positions: filter_map keeps index k exactly when pattern[k] is true (%s); outer enumerate numbers them j = 0,1,.." % sel_ok
-    okp, whyp = kept_enum_ok(PU + "puncture")
+    # the (j,k) enumeration: the enumerated sequence yields exactly the positions k with pattern[k] true, in increasing order
+    # (filter_map(|(k,&b)| if b {Some(k)} else {None}) or filter(|(_,&b)| b).map(|(k,_)| k) over pattern.iter().enumerate())
+    def kept_enum_ok(tr_, ev_list):
+        if not ev_list or not ev_list[0].loops or ev_list[0].loops[0][0] != "enumerate":
+            return False, "the block copy is not inside a loop over an enumerated sequence"
+        d = ev_list[0].loops[0][2]
+        base = ("enumerate", ("elems", var("self.pattern")))
+        K = var("k")
+        try:
+            if d[0] == "filter_map" and d[1] == base:
+                v = tr_.apply(d[2], [("tuple", [K, ("bool", True)])])
+                v2 = tr_.apply(d[2], [("tuple", [K, ("bool", False)])])
+                sel = v in (("ctor", "Some", [K]), ("ctor", "Some", (K,))) and v2 == ("variant", "None")
+            elif d[0] == "map" and d[1][0] == "filter" and d[1][1] == base:
+                f1 = tr_.apply(d[1][2], [("tuple", [K, ("bool", True)])])
+                f0 = tr_.apply(d[1][2], [("tuple", [K, ("bool", False)])])
+                mv = tr_.apply(d[2], [("tuple", [K, var("b")])])
+                sel = f1 == ("bool", True) and f0 == ("bool", False) and mv == K
+            else:
+                return False, "enumerated sequence is %r" % (d[:2],)
+        except Unsupported as e:
+            return False, "selection closure unreadable: %s" % e
+        return sel, "kept positions: the sequence keeps index k exactly when pattern[k] is true (%s); the outer enumerate numbers them j = 0,1,.." % sel
+    okp, whyp = kept_enum_ok(tr, srcs)
     ck.inst("I2", "puncture:kept-enumeration", okp, F.body(PU + "puncture").span, whyp)
     # depuncture
     b, tr, ret = slices_of(PU + "depuncture", ("self", "llrs"))
@@ -380,14 +380,14 @@ def run(ck, F, tier):
             drr, srr = rng(dr), rng(sr)
             src_ok = sbase == var("llrs") and j is not None and srr == (j * BSd, (j + num(1)) * BSd)
             kpoly = None
-            if drr and isinstance(drr[0], Poly):
-                for a in drr[0].atoms():
-                    if drr == (Poly.atom(a) * BSd, (Poly.atom(a) + num(1)) * BSd) and (atom_fn(a) or "").startswith("elem"):
-                        kpoly = Poly.atom(a)      # the filter_map payload (kept pattern position), not the running index
+            if drr and e.loops and len(e.loops[0]) > 3:
+                kv = tr.elem_value(e.loops[0][2], e.loops[0][3])
+                if isinstance(kv, Poly) and drr == (kv * BSd, (kv + num(1)) * BSd) and kv != j:
+                    kpoly = kv      # the kept pattern position, not the running index
             ok = src_ok and kpoly is not None and dflt and size_ok
             why = "output = vec![default; pattern_len*B], output[k*B..(k+1)*B] <- llrs[j*B..(j+1)*B], B = len/num_trues [src %s, dst block %r, default fill %s, size %s]" % (src_ok, kpoly, dflt, size_ok)
     ck.inst("I2", "depuncture:block-map", ok, cps[0].site if cps else b.span, why)
-    okd, whyd = kept_enum_ok(PU + "depuncture")
+    okd, whyd = kept_enum_ok(tr, cps)
     ck.inst("I2", "depuncture:kept-enumeration", okd, F.body(PU + "depuncture").span, whyd)
     # writes to output only through the copy: no other mutation of `output`
     # rate and num_trues
